@@ -548,9 +548,76 @@ func (p *Program) buildOwnCG() {
 				}
 				cc := ci.Common()
 				var callees []*ssa.Function
+				cha := func(ifaceT types.Type, method *types.Func) []*ssa.Function {
+					iface, _ := ifaceT.Underlying().(*types.Interface)
+					if iface == nil {
+						return nil
+					}
+					key := types.TypeString(ifaceT, nil) + "." + method.Name()
+					if c, ok := msCache[key]; ok {
+						return c
+					}
+					var out []*ssa.Function
+					for _, t := range named {
+						if !types.Implements(t, iface) {
+							continue
+						}
+						sel := p.SSA.MethodSets.MethodSet(t).Lookup(method.Pkg(), method.Name())
+						if sel == nil {
+							continue
+						}
+						if mf := p.SSA.MethodValue(sel); mf != nil {
+							for _, u := range unwrap(mf) {
+								dup := false
+								for _, x := range out {
+									if x == u {
+										dup = true
+									}
+								}
+								if !dup {
+									out = append(out, u)
+								}
+							}
+						}
+					}
+					msCache[key] = out
+					return out
+				}
 				switch {
 				case cc.StaticCallee() != nil:
 					callees = unwrap(cc.StaticCallee())
+					if inv := delegatedInvoke(cc.StaticCallee()); inv != nil && cc.StaticCallee().Synthetic == "" {
+						// a hand-written delegating method (`func (o *T) M(a) { o.F.M(a) }`) called on a record that was built
+						// just before with a value of known type: the call goes to that type's method
+						if t := localDynamicType(ci, inv.Common().Value); t != nil {
+							if sel := p.SSA.MethodSets.MethodSet(t).Lookup(inv.Common().Method.Pkg(), inv.Common().Method.Name()); sel != nil {
+								if mf := p.SSA.MethodValue(sel); mf != nil {
+									callees = unwrap(mf)
+								}
+							}
+						}
+					}
+					if len(callees) == 0 && cc.StaticCallee().Synthetic != "" {
+						// a method promoted from an embedded interface field: the wrapper invokes the field's value
+						for _, wb := range cc.StaticCallee().Blocks {
+							for _, wi := range wb.Instrs {
+								inv, ok := wi.(ssa.CallInstruction)
+								if !ok || !inv.Common().IsInvoke() {
+									continue
+								}
+								if t := localDynamicType(ci, inv.Common().Value); t != nil {
+									// the record was built a few instructions earlier with a value of known type
+									if sel := p.SSA.MethodSets.MethodSet(t).Lookup(inv.Common().Method.Pkg(), inv.Common().Method.Name()); sel != nil {
+										if mf := p.SSA.MethodValue(sel); mf != nil {
+											callees = append(callees, unwrap(mf)...)
+										}
+									}
+								} else {
+									callees = append(callees, cha(inv.Common().Value.Type(), inv.Common().Method)...)
+								}
+							}
+						}
+					}
 				case cc.IsInvoke():
 					iface, _ := cc.Value.Type().Underlying().(*types.Interface)
 					if iface == nil {
@@ -604,4 +671,108 @@ func (p *Program) buildOwnCG() {
 			}
 		}
 	}
+}
+
+// localDynamicType: site calls a wrapper whose receiver (first argument) is a local record; wrapperField is the value the
+// wrapper invokes on — a load of an embedded interface field of its receiver. If, in the block of the call and before it,
+// the record was assigned a composite literal whose field of that index was set to a value of a concrete type, that type is
+// returned (flow-sensitive, within one block: `e = Evaluation{Service{}}; e.EvaluateList(…)`).
+func localDynamicType(site ssa.CallInstruction, wrapperField ssa.Value) types.Type {
+	u, ok := wrapperField.(*ssa.UnOp)
+	if !ok {
+		return nil
+	}
+	fa, ok := u.X.(*ssa.FieldAddr)
+	if !ok {
+		return nil
+	}
+	if _, isParam := fa.X.(*ssa.Parameter); !isParam {
+		return nil
+	}
+	field := fa.Field
+	args := site.Common().Args
+	if len(args) == 0 {
+		return nil
+	}
+	recv, ok := args[0].(*ssa.Alloc)
+	if !ok {
+		return nil
+	}
+	call, ok := site.(ssa.Instruction)
+	if !ok {
+		return nil
+	}
+	b := call.Block()
+	idx := -1
+	for i, in := range b.Instrs {
+		if in == call {
+			idx = i
+		}
+	}
+	for i := idx - 1; i >= 0; i-- {
+		st, ok := b.Instrs[i].(*ssa.Store)
+		if !ok {
+			if ci, isCall := b.Instrs[i].(ssa.CallInstruction); isCall {
+				// an intervening call that receives the record's address may change it
+				for _, a := range ci.Common().Args {
+					if a == ssa.Value(recv) {
+						return nil
+					}
+				}
+			}
+			continue
+		}
+		if st.Addr == ssa.Value(recv) {
+			// whole-record assignment: value = load of a literal cell
+			ld, ok := st.Val.(*ssa.UnOp)
+			if !ok {
+				return nil
+			}
+			lit, ok := ld.X.(*ssa.Alloc)
+			if !ok || lit.Referrers() == nil {
+				return nil
+			}
+			for _, r := range *lit.Referrers() {
+				if f2, ok := r.(*ssa.FieldAddr); ok && f2.Field == field && f2.Referrers() != nil {
+					for _, r2 := range *f2.Referrers() {
+						if s2, ok := r2.(*ssa.Store); ok && s2.Addr == ssa.Value(f2) {
+							if mi, ok := s2.Val.(*ssa.MakeInterface); ok {
+								return mi.X.Type()
+							}
+						}
+					}
+				}
+			}
+			return nil
+		}
+		if f2, ok := st.Addr.(*ssa.FieldAddr); ok && f2.X == ssa.Value(recv) && f2.Field == field {
+			if mi, ok := st.Val.(*ssa.MakeInterface); ok {
+				return mi.X.Type()
+			}
+			return nil
+		}
+	}
+	return nil
+}
+
+// delegatedInvoke: fn's body is nothing but one interface invocation on a field of its receiver (plus the return): the call
+// instruction, else nil.
+func delegatedInvoke(fn *ssa.Function) ssa.CallInstruction {
+	if fn == nil || len(fn.Blocks) != 1 || fn.Signature.Recv() == nil {
+		return nil
+	}
+	var inv ssa.CallInstruction
+	for _, in := range fn.Blocks[0].Instrs {
+		switch x := in.(type) {
+		case *ssa.FieldAddr, *ssa.UnOp, *ssa.Return, *ssa.DebugRef, *ssa.Extract:
+		case ssa.CallInstruction:
+			if inv != nil || !x.Common().IsInvoke() {
+				return nil
+			}
+			inv = x
+		default:
+			return nil
+		}
+	}
+	return inv
 }
